@@ -5,6 +5,7 @@ import (
 	"crypto/sha256"
 	"errors"
 	"fmt"
+	"sort"
 	"sync"
 	"testing"
 	"testing/synctest"
@@ -45,6 +46,7 @@ type tracer struct {
 	mu      sync.Mutex
 	verdict map[string]string
 	reason  map[string]string
+	mesh    map[peer.ID]bool // peers in the node's mesh of the topic
 }
 
 func msgID(m *pubsub_pb.Message) string {
@@ -64,8 +66,19 @@ func (t *tracer) OnNewOutboundStream(peer.ID, protocol.ID) {}
 func (t *tracer) OnClosedOutboundStream(peer.ID)           {}
 func (t *tracer) Join(string)                              {}
 func (t *tracer) Leave(string)                             {}
-func (t *tracer) Graft(peer.ID, string)                    {}
-func (t *tracer) Prune(peer.ID, string)                    {}
+func (t *tracer) Graft(p peer.ID, _ string) {
+	t.mu.Lock()
+	defer t.mu.Unlock()
+	if t.mesh == nil {
+		t.mesh = map[peer.ID]bool{}
+	}
+	t.mesh[p] = true
+}
+func (t *tracer) Prune(p peer.ID, _ string) {
+	t.mu.Lock()
+	defer t.mu.Unlock()
+	delete(t.mesh, p)
+}
 func (t *tracer) ValidateMessage(*pubsub.Message)          {}
 func (t *tracer) DeliverMessage(m *pubsub.Message)         { t.set(m, "accept", "") }
 func (t *tracer) RejectMessage(m *pubsub.Message, reason string) {
@@ -159,6 +172,7 @@ func runSubscriberGroup(t *testing.T, group []map[string]any, withVerifier, metr
 		var crashed bool
 		if withVerifier {
 			_ = sub.SetVerifier(func(ctx context.Context, h *vh.Header) error {
+				_ = h.Hash() // as the Syncer's verifier does (it logs the hash): whatever a header memoises is computed here
 				if curKind == "panic" {
 					panic("scripted verifier panic")
 				}
@@ -186,6 +200,20 @@ func runSubscriberGroup(t *testing.T, group []map[string]any, withVerifier, metr
 		}
 		time.Sleep(5 * time.Second) // heartbeats: mesh formation
 		synctest.Wait()
+		// the scenario starts from a formed mesh (publisher and downstream both grafted on the node under test, the
+		// publisher knows the node's subscription); give the heartbeats more virtual time if that is not the case yet
+		formed := func() bool {
+			tr.mu.Lock()
+			defer tr.mu.Unlock()
+			return tr.mesh[hosts[0].ID()] && tr.mesh[hosts[2].ID()] && len(topicP.ListPeers()) >= 1
+		}
+		for k := 0; k < 120 && !formed(); k++ {
+			time.Sleep(time.Second)
+			synctest.Wait()
+		}
+		if !formed() {
+			t.Fatal("harness: gossipsub mesh did not form")
+		}
 		var dmu sync.Mutex
 		relayed := map[string]bool{}
 		go func() {
@@ -261,7 +289,8 @@ func runSubscriberGroup(t *testing.T, group []map[string]any, withVerifier, metr
 			ncancel()
 			if err == nil {
 				obs.Delivered = true
-				obs.DeliveredRight = got != nil && got.Hash().String() == hdr.Hash().String()
+				obs.DeliveredRight = got != nil && got.Hash().String() == hdr.Hash().String() && got.Height() == hdr.Height() &&
+					got.ChainID() == hdr.ChainID() && got.Time().Equal(hdr.Time()) && got.Clone().Hash().String() == hdr.Hash().String()
 			}
 			dmu.Lock()
 			obs.Relayed = relayed[mid]
@@ -312,6 +341,19 @@ func TestSubscriber(t *testing.T) {
 		}
 	}
 	if len(with) > 0 {
+		// in this group the accepted messages come last: every kind of refused message has gone through the same
+		// Subscriber before them (in the metrics group they come in table order)
+		// and right before them the well-formed messages that the verifier refused
+		rank := func(c map[string]any) int {
+			switch {
+			case mbt.Str(mbt.Map(c, "predicted"), "verdict") == "accept":
+				return 2
+			case mbt.Str(mbt.Map(c, "in"), "payload") == "valid":
+				return 1
+			}
+			return 0
+		}
+		sort.SliceStable(with, func(i, j int) bool { return rank(with[i]) < rank(with[j]) })
 		runSubscriberGroup(t, with, true, false, tw, rw)
 	}
 	if len(withM) > 0 {
